@@ -80,7 +80,7 @@ impl TcpCfg {
             send_cap: 2,
             recv_cap: 64,
             retx_threshold: 2,
-            retx_max: 3,
+            retx_max: 4,
             c_chunks: vec![4],
             s_bytes: 0,
             mode: Mode::Sequential,
@@ -100,8 +100,11 @@ impl TcpCfg {
     /// Sufficient condition for "no legitimate retransmit exhaustion": the earliest
     /// copy/ACK pair that is not hit by a drop completes before the abort round.
     pub fn bounded_loss_ok(&self) -> bool {
-        self.drops * self.retx_threshold + 2 * self.d + 2 < (self.retx_max + 1) * self.retx_threshold
-            && self.drops <= self.retx_max
+        // one implicit loss is budgeted on top of the D explicit drops: a data
+        // segment that overtakes the handshake ACK completes the handshake on the
+        // server but its payload is discarded (recovered by retransmission)
+        (self.drops + 1) * self.retx_threshold + 2 * self.d + 2 < (self.retx_max + 1) * self.retx_threshold
+            && self.drops < self.retx_max
     }
     pub fn horizon(&self) -> u32 {
         self.retx_threshold * (self.retx_max + 2) + 8 + (self.total() + self.s_bytes) as u32 * 2
@@ -430,8 +433,12 @@ pub struct TcpSys {
     rounds: u32,
     /// per direction (src endpoint -> dst endpoint) monitor of what the *sender* was told
     mon: HashMap<(SocketAddr, SocketAddr), Mon>,
+    /// last window each endpoint advertised to its peer, in emission order: (src, dst) -> window
+    adv: HashMap<(SocketAddr, SocketAddr), u32>,
+    cause: String,
     dropped: Vec<String>,
     states_seen: Vec<&'static str>,
+    pub verbose: bool,
     guard: EnterGuard,
 }
 
@@ -610,6 +617,14 @@ impl TcpSys {
         self.guard.egress_all(&mut out);
         for p in &out {
             self.on_emit(p)?;
+            if let Transport::Tcp(s) = &p.payload {
+                if s.flags.ack && !s.flags.rst {
+                    self.adv.insert(
+                        (SocketAddr::new(p.src, s.src_port), SocketAddr::new(p.dst, s.dst_port)),
+                        s.window as u32,
+                    );
+                }
+            }
         }
         self.wire.add(out);
         self.rounds += 1;
@@ -694,8 +709,11 @@ impl System for TcpSys {
             drops_left: cfg.drops,
             rounds: 0,
             mon: HashMap::new(),
+            adv: HashMap::new(),
+            cause: String::new(),
             dropped: vec![],
             states_seen: vec![],
+            verbose: false,
             guard,
         };
         let hosts = s.hosts.clone();
@@ -766,10 +784,15 @@ impl System for TcpSys {
         d.add(&self.sh.rgate.tokens());
         d.add(&self.sh.wgate.tokens());
         // window monitor state (only when it is judged)
-        if self.cfg.check_caps {
+        {
+            // the monitor decides the window invariant (C16) and the stall
+            // classification (C06), so it is part of the state
             let mut m: Vec<_> = self.mon.iter().map(|(k, v)| (*k, v.una, v.wnd)).collect();
             m.sort();
             d.add(&m);
+            let mut a: Vec<_> = self.adv.iter().map(|(k, v)| (*k, *v)).collect();
+            a.sort();
+            d.add(&a);
         }
         d.finish()
     }
@@ -783,6 +806,7 @@ impl System for TcpSys {
 
     fn finish(mut self) -> (u64, Option<Violation>) {
         // fair suffix: release every gate, deliver FIFO, no more drops
+        let pre = self.sh.log.borrow().clone();
         self.sh.rgate.open();
         self.sh.wgate.open();
         let mut v = self.run_apps().err();
@@ -792,13 +816,16 @@ impl System for TcpSys {
         while v.is_none() && r < h {
             r += 1;
             while !self.wire.is_empty() && v.is_none() {
+                if self.verbose { println!("--- suffix deliver {}", self.wire.pkts[0].key); }
                 v = self.deliver(0).err();
+                if self.verbose { println!("{}", self.trace_state()); }
             }
             if v.is_some() {
                 break;
             }
             let before = self.wire.len();
             v = self.end_round().err();
+            if self.verbose { println!("--- suffix end-round\n{}", self.trace_state()); }
             if self.wire.len() == before && self.wire.is_empty() {
                 idle += 1;
             } else {
@@ -809,7 +836,9 @@ impl System for TcpSys {
             }
         }
         let l = self.sh.log.borrow().clone();
-        let outcome = Digest::of64(&l);
+        // an outcome is the pair (what had been observed when the explored prefix
+        // ended, what was observed at the end of the fair suffix)
+        let outcome = Digest::of64(&(&pre, &l));
         if v.is_none() && self.cfg.liveness {
             let total = self.cfg.total();
             let mut why = vec![];
@@ -864,6 +893,23 @@ impl System for TcpSys {
                 let errs = l.c_werr.is_some() || l.s_rerr.is_some() || l.c_rerr.is_some() || l.s_werr.is_some()
                     || matches!(l.c_conn, Some(Err(_)));
                 let clause = if errs { "aborted" } else { "stall" };
+                if !errs {
+                    // classify the stall for known-findings matching: was a sender left
+                    // believing the window is closed although its peer's latest
+                    // advertisement (in emission order) was an open window?
+                    let mut causes = vec![];
+                    for ((me, peer), m) in &self.mon {
+                        if m.wnd == Some(0) {
+                            match self.adv.get(&(*peer, *me)) {
+                                Some(w) if *w > 0 => causes.push("zero-window:update-lost-or-overtaken"),
+                                _ => causes.push("zero-window:never-reopened"),
+                            }
+                        }
+                    }
+                    causes.sort();
+                    causes.dedup();
+                    self.cause = causes.join("+");
+                }
                 v = Some(Violation::new(
                     clause,
                     format!(
@@ -882,12 +928,34 @@ impl System for TcpSys {
 }
 
 impl TcpSys {
+    /// Human-readable state for replays: log, wire and the TCB lines of the dump.
+    pub fn trace_state(&self) -> String {
+        let mut out = String::new();
+        out.push_str(&format!("    log: {:?}\n", self.sh.log.borrow()));
+        for p in &self.wire.pkts {
+            out.push_str(&format!("    wire: {} age={}\n", p.key, p.age));
+        }
+        for line in turmoil_net::verif_dump().lines() {
+            if let Some(i) = line.find("tcb=Some") {
+                let head: String = line.chars().take(12).collect();
+                out.push_str(&format!("    {head}.. {}\n", &line[i..]));
+            }
+        }
+        out
+    }
+
     /// Signature: clause + the deviations (dropped packet kinds, in order) + the policy
     /// class. One defect = one signature in practice.
     fn sign(&self, mut v: Violation) -> Violation {
+        if v.clause == "stall" && self.cause == "zero-window:update-lost-or-overtaken" {
+            v.sig = "stall|zero-window:update-lost-or-overtaken".into();
+            v.scenario = self.cfg.describe();
+            return v;
+        }
         v.sig = format!(
-            "{}|drops={}|reader={:?}/{}|mode={:?}",
+            "{}{}|drops={}|reader={:?}/{}|mode={:?}",
             v.clause,
+            if self.cause.is_empty() { String::new() } else { format!("({})", self.cause) },
             self.dropped.join("+"),
             self.cfg.reader,
             if self.cfg.reader_buf * 2 < self.cfg.recv_cap { "small" } else { "big" },
